@@ -222,6 +222,9 @@ def MonState.observe (m : MonState) (op : Op) (evs : List String) (post : Option
     fails := fails ++ [("C05", "panic")]
   if evs.any (fun e => e == "HANG" || e.endsWith "HANG") then
     fails := fails ++ [("C06", "hang")]
+    -- with the round-robin strategy on, a call that never returns is also C09's matter: a BIND pick waits
+    -- only for its own slot, returns when its context ends, and delays no other call
+    if c.rr then fails := fails ++ [("C09", "rr_blocks_nothing_else")]
   -- connections created / removed / addressed, states published
   let newScs := evs.filterMap fun e => if e.startsWith "new sc=" then (evArg e "sc").bind fun sc => (evArg e "a").map fun a => (sc, a) else none
   let upds := evs.filterMap fun e => if e.startsWith "upd sc=" then (evArg e "sc").bind fun sc => (evArg e "a").map fun a => (sc, a) else none
